@@ -270,6 +270,33 @@ theorem isort_congr {le1 le2 : α → α → Bool} (l : List α)
     rw [ih (fun a ha b hb => h a (by simp [ha]) b (by simp [hb]))]
     exact insertBy_congr x _ (fun b hb => h x (by simp) b (by simp [(mem_isort le2 xs b).mp hb]))
 
+theorem insertBy_decorate (f : α → β) (le : β → β → Bool) (x : α) (m : List (β × α))
+    (hm : ∀ p ∈ m, p.1 = f p.2) :
+    (insertBy (fun (u v : β × α) => le u.1 v.1) (f x, x) m).map Prod.snd =
+      insertBy (fun a b => le (f a) (f b)) x (m.map Prod.snd) := by
+  induction m with
+  | nil => rfl
+  | cons p ps ih =>
+    have hp := hm p (by simp)
+    simp only [insertBy, List.map_cons, hp]
+    split
+    · rfl
+    · simp only [List.map_cons, ih (fun q hq => hm q (by simp [hq]))]
+
+/-- sorting on a key computed once per element = sorting with the key recomputed in every comparison -/
+theorem isort_decorate (f : α → β) (le : β → β → Bool) (l : List α) :
+    (isort (fun (u v : β × α) => le u.1 v.1) (l.map (fun a => (f a, a)))).map Prod.snd =
+      isort (fun a b => le (f a) (f b)) l := by
+  induction l with
+  | nil => rfl
+  | cons x xs ih =>
+    simp only [List.map_cons, isort]
+    rw [insertBy_decorate f le x, ih]
+    intro p hp
+    have := (mem_isort _ _ p).mp hp
+    obtain ⟨a, _, rfl⟩ := List.mem_map.mp this
+    rfl
+
 theorem filterMap_ite (p : α → Bool) (g : α → β) (l : List α) :
     l.filterMap (fun x => if p x then some (g x) else none) = (l.filter p).map g := by
   induction l with
